@@ -46,6 +46,9 @@ fn lifecycle(ctx: &mut Ctx) {
     let mon_mode = if ctx.idx >= 432 { ctx.plan(3) } else { 0 };
     let subscribed = ctx.idx >= 432 && kind == Kind::Sub && ctx.plan_bool();
     let crowd = if ctx.idx >= 432 && prefix == 5 && ctx.plan(6) == 0 { 120 + ctx.plan(60) as usize } else { 0 };
+    // a SUB socket with a large subscription set admits peers that finish the handshake and then
+    // stop reading: at teardown the replay of the subscriptions to them is still blocked in a write
+    let replay_blocked = ctx.idx >= 432 && kind == Kind::Sub && matches!(prefix, 1 | 3 | 4) && ctx.plan(3) == 0;
     let backlog = ctx.idx >= 432 && matches!(kind, Kind::Pub | Kind::Xpub) && matches!(prefix, 1 | 3) && ctx.plan_bool();
     rt::task::spawn_local("app", async move {
         let mut sock = AnySock::new(kind, None);
@@ -59,6 +62,13 @@ fn lifecycle(ctx: &mut Ctx) {
         };
         if subscribed {
             let _ = sock.subscribe("").await;
+        }
+        if replay_blocked {
+            for t in 0..3u8 {
+                let topic: String = std::iter::repeat((b'a' + t) as char).take(60_000).collect();
+                let _ = sock.subscribe(&topic).await;
+            }
+            rt::count("probe_teardown_while_subscription_replay_is_blocked");
         }
         let bind_to = if tr == 3 { format!("ipc:///tmp/zsim-{idx}.sock") } else { TRANSPORTS[tr].to_string() };
         if tr == 3 {
@@ -95,6 +105,10 @@ fn lifecycle(ctx: &mut Ctx) {
         if matches!(prefix, 1 | 3 | 4) {
             for p in 0..npeers {
                 let Ok(mut peer) = RawPeer::connect(&ep) else { continue };
+                if replay_blocked {
+                    peer.conn.set_auto_drain(1, false);
+                    peer.conn.set_cap(1, 4096);
+                }
                 let _ = peer.hello(peer_type, Some(format!("p{p}").as_bytes())).await;
                 if matches!(kind, Kind::Pub | Kind::Xpub) {
                     let _ = peer.send_msg(&[vec![1]]).await;
